@@ -32,7 +32,7 @@ type RtpPlan struct {
 	FirstSeq  int           `json:"first_seq"`
 	Units     []RtpUnitSpec `json:"units"`
 	Seed      uint64        `json:"seed"`
-	Window    int           `json:"window"` // reorder window in packets (0: in order)
+	Window    int           `json:"window"`             // reorder window in packets (0: in order)
 	ListMax   int           `json:"list_max,omitempty"` // capacity of lal's reorder list (0: 1024, what the RTSP sessions use)
 	DupProb   float64       `json:"dup"`
 	Pair      string        `json:"pair"` // lal2lal | lal2ref | ref2lal
